@@ -201,7 +201,7 @@ class Interp:
             return
         for k in list(st):
             v = st[k]
-            if v[0] in ('d', 'same', 'isv', 'isempty', 'isnonempty', 'popres') and v[1] in dead_keys:
+            if v[0] in ('d', 'same', 'isv', 'isempty', 'isnonempty', 'popres', 'len') and v[1] in dead_keys:
                 del st[k]
 
     def kill_under(self, st, pl):
@@ -274,6 +274,11 @@ class Interp:
         val = None
         if r == 'use':
             val = self.eval_op(st, rv['o'])
+            if val is None and rv['o'][0] != 'k' and len(s['lhs']) == 1 and getattr(self, '_pos', None) is not None \
+                    and len(self.fn.defs().get(s['lhs'][0], [])) > 1 and self.variants_of(self.fn.locals[s['lhs'][0]].get('adt') or ''):
+                # one of several definitions of an enum-typed local (`let t = if c { None } else { self.max_delay }`): remember which
+                # copy is current on this path, so that a later `match t` is described by the place it was copied from
+                val = ('site', self._pos[0], self._pos[1])
             if rv['o'][0] != 'k':
                 src = self.norm(st, rv['o'][1])
                 snap = dict(st)
@@ -335,7 +340,18 @@ class Interp:
         elif r == 'bin' and rv['op'] in ('Eq', 'Ne', 'Lt', 'Le', 'Gt', 'Ge', 'Add', 'Sub', 'AddWithOverflow', 'SubWithOverflow'):
             a = self.eval_op(st, rv['a'])
             b = self.eval_op(st, rv['b'])
-            if a and b and a[0] == 'c' and b[0] == 'c':
+            # `c.len() == 0`, `c.len() > 0`, `c.len() < 1` ... : emptiness tests spelled with the length
+            for x_, y_, flip_ in ((a, b, False), (b, a, True)):
+                if x_ and y_ and x_[0] == 'len' and y_[0] == 'c' and const_int(y_[1]):
+                    k_ = const_int(y_[1])[0]
+                    op2 = rv['op'] if not flip_ else {'Lt': 'Gt', 'Gt': 'Lt', 'Le': 'Ge', 'Ge': 'Le'}.get(rv['op'], rv['op'])
+                    if (op2, k_) in (('Eq', 0), ('Le', 0), ('Lt', 1)):
+                        val = ('isempty', x_[1])
+                    elif (op2, k_) in (('Ne', 0), ('Gt', 0), ('Ge', 1)):
+                        val = ('isnonempty', x_[1])
+            if val is not None:
+                pass
+            elif a and b and a[0] == 'c' and b[0] == 'c':
                 ia, ib = const_int(a[1]), const_int(b[1])
                 op_ = rv['op']
                 if ia and ib and ia[1] == ib[1] and -(1 << 63) < ia[0] < (1 << 63) and abs(ia[0]) < 4096 and abs(ib[0]) < 4096:
@@ -699,7 +715,11 @@ class Interp:
                         self.kill_under(st, tgt)
                         val = ('popres', pkey(tgt))
                     handled = True
-                elif m in ('len', 'iter', 'get', 'contains_key', 'first', 'last', 'front', 'back', 'capacity', 'values', 'keys', 'contains', 'peek'):
+                elif m == 'len':
+                    cur = self.get(st, tgt)
+                    val = ('c', '0_usize') if cur == ('e',) else ('len', pkey(tgt))
+                    handled = True
+                elif m in ('iter', 'get', 'contains_key', 'first', 'last', 'front', 'back', 'capacity', 'values', 'keys', 'contains', 'peek'):
                     handled = True
         if not handled and path in ('std::mem::swap',) and len(args) == 2:
             a = arg_ref_target(0)
